@@ -405,3 +405,42 @@ MANIFEST_TEXT["C16"] = dict(
     text="Unbounded Lean theorems per type: validate_op accepts exactly the ops that do not skip one of the author's updates (VClock, Orswot on reachable states with the exact DotRange, List), flags unseen children (MerkleReg) and marker conflicts (LWWReg). "
          "Map: map-level gap detection proved; the entry-clock check rejects correct in-order ops – recorded as a known finding with a kernel-checked witness.",
     note=NOTE, technique="Lean 4 proof (representation theorem + clock arithmetic) + differential correspondence check", design_ref="DESIGN.md §7 C16")
+
+# --------------------------------------------------------------------------------------------
+# C12 (List under causal delivery)
+# --------------------------------------------------------------------------------------------
+PROPS["C12"] = dict(
+    lean_targets=["CrdtModel.Props.C12", "CrdtModel.Witness.ListNeedsCausal"], audit="CrdtModel/Audit/C12.lean",
+    required_theorems=["Crdt.C12." + t for t in ["rep", "state_eq_spec", "read_eq_sorted_live", "global_order", "same_ops_same_sequence", "relative_order_stable", "no_duplicates",
+                                                  "duplicate_absorbed", "causal_implies_ok", "causal_schedule_ok", "gen_insert", "gen_append", "gen_delete", "apply_defined"]]
+        + ["Crdt.Witness.list_delete_before_insert_diverges", "Crdt.Witness.list_actor_order_violation_diverges"],
+    profiles=[dict(name="list_hist", quick=800, thorough=15000), dict(name="list_any", quick=600, thorough=10000)],
+    oracle_fields=["seq", "read", "clock", "len", "first", "last", "conv", "ro", "absorb", "fresh"],
+    explanation="List representation theorem (merge-free execution model OpRepSys) under a discipline weaker than causal delivery: each actor's ops in issue order and a delete after the insert it targets "
+                "(every causal schedule satisfies it: causal_implies_ok). Every derivable state IS specState K: the map holds exactly the live inserts (inserted, not deleted) keyed by identifiers, clock = per-actor max dot. "
+                "Hence one global order (the identifier order of C14), same ops => same sequence, stable relative order, no duplicates, duplicates absorbed; generation lemmas for insert_index/append/delete_index. "
+                "Oracle on the implementation: E (convergence), RO (relative order of common elements over all pairs of replicas and snapshots, no element twice), AB, freshness, reads against the spec. "
+                "Witnesses show the causal requirement is real (delete before insert, actor order violated).",
+    statement_coverage="full statement proved",
+    assumptions=["a dot names one op (LogWF), insert identifiers non-empty and ending in the op's dot (API-generated)", "usize indices do not overflow"],
+)
+MANIFEST_TEXT["C12"] = dict(
+    text="Unbounded Lean theorems: under causal delivery (in fact under per-actor order + delete-after-its-insert) every replica's List state is the function specState of the set of ops delivered: exactly the live inserts in the "
+         "single global identifier order; equal delivered sets give equal sequences; relative order of two elements is the same at every replica and time; no element twice; duplicates absorbed.",
+    note=NOTE, technique="Lean 4 proof (representation invariant over a merge-free execution model + identifier order) + differential correspondence check", design_ref="DESIGN.md §7 C12")
+
+PROPS["C01"]["lean_targets"] = PROPS["C01"]["lean_targets"] + ["CrdtModel.Props.C12", "CrdtModel.Props.C15"]
+PROPS["C01"]["required_theorems"] = PROPS["C01"]["required_theorems"] + ["Crdt.C12.same_ops_same_sequence", "Crdt.C15.state_function_of_node_set"]
+PROPS["C01"]["profiles"] = PROPS["C01"]["profiles"] + [dict(name="list_hist", quick=500, thorough=10000), dict(name="merkle_hist", quick=500, thorough=10000), dict(name="glist_hist", quick=400, thorough=8000)]
+PROPS["C01"]["oracle_fields"] = PROPS["C01"]["oracle_fields"] + ["seq", "ro", "dag", "orphans", "roots"]
+PROPS["C01"]["statement_coverage"] = "proved for VClock, GCounter, PNCounter, GSet, LWWReg (unique markers), MaxReg, MinReg, MVReg (up to Vec order = its own ==), Orswot, List (C12), MerkleReg (C15), Map key level (C05); GList: correspondence + convergence oracle only; Map nested contents false on the pinned tree (known findings)"
+for _pid in ("C02", "C03", "C09", "C20"):
+    PROPS[_pid]["lean_targets"] = PROPS[_pid]["lean_targets"] + ["CrdtModel.Props.C15"]
+    PROPS[_pid]["required_theorems"] = PROPS[_pid]["required_theorems"] + ["Crdt.C15.merge_comm", "Crdt.C15.merge_assoc", "Crdt.C15.merge_idem", "Crdt.C15.merge_is_union", "Crdt.C15.duplicate_absorbed", "Crdt.C15.stale_merge_absorbed"]
+    PROPS[_pid]["profiles"] = PROPS[_pid]["profiles"] + [dict(name="merkle_hist", quick=500, thorough=10000)]
+    PROPS[_pid]["oracle_fields"] = PROPS[_pid]["oracle_fields"] + ["dag", "orphans", "roots"]
+PROPS["C09"]["lean_targets"] = PROPS["C09"]["lean_targets"] + ["CrdtModel.Props.C12"]
+PROPS["C09"]["required_theorems"] = PROPS["C09"]["required_theorems"] + ["Crdt.C12.duplicate_absorbed"]
+PROPS["C09"]["profiles"] = PROPS["C09"]["profiles"] + [dict(name="list_hist", quick=500, thorough=10000)]
+PROPS["C08"]["lean_targets"] = PROPS["C08"]["lean_targets"] + ["CrdtModel.Witness.ListNeedsCausal"]
+PROPS["C08"]["required_theorems"] = PROPS["C08"]["required_theorems"] + ["Crdt.Witness.list_delete_before_insert_diverges"]
